@@ -56,6 +56,16 @@ CLAIMED = {
         technique="TLA+ specs Pointer (RFC 6901 tokens) and Router (lookup precedence, '/' boundary, middleware chain) evaluated by TLC over all short paths and all registration orders; vectors replayed on real routers; random deep paths and the handler x format x body product trace-validated by TLC",
         text="TLC checks escape/unescape round trip on every well-formed path up to length 5 (quick) / 6 (thorough) over {/,~,0,1,a,b} and the route winner for all 120 registration orders of an exact route, a registry mount, a struct mount and two middlewares. Each token vector is replayed through a recording RepeStruct mounted at the root and under a prefix on the owned path, the view path and behind middleware, and through parse_json_pointer; each lookup vector on a router built in that order (winner, remainder tokens, middleware hit order). Random paths with 0..40 segments and the product of twelve routes x seven format codes x eleven bodies x notify are dispatched on all four paths and TLC requires identical outcomes.",
         note="Trusts TLC and the recording struct / middleware. Response comparison is on what a client would receive (empty handler query = echoed request query)."),
+    "C04": dict(
+        category="model_checking", design_ref="DESIGN.md §5 C04",
+        technique="TLA+ spec ClientMux (callers, pending map, reader, adversarial server) checked by TLC; the three real clients driven by a scripted adversarial server over raw TCP / raw WebSocket and the recorded caller-level events trace-validated by TLC with silent reader steps",
+        text="TLC exhausts all interleavings of 2-3 callers with the reader at the granularity allocate / register / write / receive / dispatch / take, against a server that answers in any order, duplicates answers, answers unknown ids and pushes notify frames reusing in-flight ids (Correlated, DistinctIds, NotifyOnlyToSubscriber). The real blocking, async and WebSocket clients are then driven by a scripted server through every permutation of 4 (quick) / 6 (thorough) concurrent calls with a rotating junk frame, 64-caller random orders and batches; what each caller received is accepted only if TLC finds a schedule of the model's reader that delivers exactly that.",
+        note="Trusts TLC and the scripted server. The reader's internal steps are inferred, not logged. Probe-gated replay of TLC schedules at register/write granularity was not built (DESIGN.md section 9 fallback): interleaving exhaustiveness comes from the model, order exhaustiveness from the permutation sweep."),
+    "C06": dict(
+        category="model_checking", design_ref="DESIGN.md §5 C06",
+        technique="TLA+ spec ClientMux with fault, timeout and cancel actions checked by TLC (safety + liveness, must-violate config for the shutdown order); fault / timeout / cancel scenarios injected into the three real clients by a scripted server and trace-validated by TLC",
+        text="TLC checks NoResidue, WaiterHasFuture and (with fairness) that every waiting call finishes once the connection fails, for faults placed at every step; reversing the shut-writer / drain order of fail_all_pending violates WaiterHasFuture. The real clients face close, reset, malformed frame, inconsistent length, u64::MAX length and truncated response with 0, 1, 3 and 8 (16) calls in flight and every split of requests read / responses sent before the fault; per-call timeouts with late and racing responses; cancellation of async/WebSocket calls. Every call runs under a watchdog; TLC accepts a run only if each result is explainable, the pending map is empty at the end (hook accessor), a later call fails (after a fault) or succeeds (after timeouts/cancels), and a WebSocket subscriber saw end-of-stream.",
+        note="Trusts TLC, the scripted server and the add-only verif_pending_len() accessor. A call still running 10 s after the scenario is taken as hung."),
 }
 
 NOT_YET = {}
@@ -103,7 +113,7 @@ def main():
     (ROOT / "MANIFEST.json").write_text(json.dumps(man, indent=1) + "\n")
 
 
-HOOK_COMMITS = ["6646e89", "998c52d"]
+HOOK_COMMITS = ["6646e89", "998c52d", "e3e337b", "e237f47"]
 
 if __name__ == "__main__":
     main()
